@@ -9,8 +9,8 @@ def harness_files(tier, seed):
 
 
 META = dict(
-    bounds="value kind: symbolic selector over 12 kinds (None bool int float complex str bytes bytearray list tuple dict "
-           "non-dict Mapping); content symbolic (int unbounded, float all values incl. nan/inf, str len<=2) or, for containers, "
+    bounds="value kind: symbolic selector over 14 kinds (None bool int float complex str bytes bytearray list tuple dict "
+           "non-dict Mapping, instance of a str subclass, instance of a bytes subclass); content symbolic (int unbounded, float all values incl. nan/inf, str len<=2) or, for containers, "
            "content that is valid for the target so that acceptance depends on the kind alone",
     configs="25 target kinds x 11 embedding contexts (top, list element, tuple slot, struct value, mapping value, mapping value under an Any key, union member, "
             "Optional, dataclass field by name, dataclass field by position, Annotated) = the matrix of the property; quick runs "
